@@ -179,6 +179,42 @@ def nth_stream(rng, pid, kinds=("iter", "iterref", "vec", "slice", "array", "ran
     return cases
 
 
+def droppanic_stream(rng, tier, pid):
+    """a destructor panics: the k-th destruction of an element performed by the machinery of a consumed vec / array
+    (unconsumed chunk rest, elements discarded by `nth`, skip_to_end, Drop, the remainder of into_seq_iter)"""
+    cases = []
+    i = 0
+    styles = [
+        lambda n: [["chunk %d 0" % n]], lambda n: [["chunk %d 1" % n, "next"]], lambda n: [["next", "chunk %d nth:1" % n, "next"]],
+        lambda n: [["chunk %d nth:%d" % (n + 1, n)]], lambda n: [["bufnew %d" % n, "bufnext 1", "bufnext 0", "next"]],
+        lambda n: [["bufnew %d" % n, "bufnext nth:0", "bufnext all"]], lambda n: [["next", "skip", "next"]], lambda n: [["skip"]],
+        lambda n: [["next"]], lambda n: [[]], lambda n: [["chunk %d 1" % n], ["next", "skip"]], lambda n: [["bufnew 2", "bufnext 0", "bufnext 1"], ["chunk %d nth:0" % n, "next"]],
+        lambda n: [["foreach 2"], ["chunk %d 0" % n]],
+    ]
+    for kind in ("vec", "array"):
+        for L in (1, 2, 3, 5):
+            for n in (1, 2, 3):
+                for si, st in enumerate(styles):
+                    for k in range(0, L):
+                        for owner in ("drop", "intoseq 1", "intoseq all"):
+                            if tier == "quick" and (i % 3) and L == 5:
+                                i += 1
+                                continue
+                            c = make_source(rng, "%s-dp%d" % (pid, i), kind, L)
+                            c.threads = [list(t) for t in st(n)]
+                            c.owner = owner
+                            c.droppanic = k
+                            if len(c.threads) > 1:
+                                c.sched = rand_sched(rng, len(c.threads), 8)
+                            cases.append(c)
+                            i += 1
+    for j in range(400 if tier == "quick" else 20000):
+        c = rand_case(rng, "%s-dpr%d" % (pid, j), dict(kinds=["vec", "array"], skip=True, lens=[1, 2, 3, 5, 8], drain=0.2, threads=(1, 3)))
+        c.droppanic = rng.randint(0, max(0, c.src_len() - 1))
+        cases.append(c)
+    return cases
+
+
 def pulls_stream(rng, tier, pid, extra=None, n_random=None, prof=None, exh=True):
     n_random = n_random if n_random is not None else (1500 if tier == "quick" else 60000)
     cases = []
@@ -322,6 +358,7 @@ def stream_for0(pid, tier, seed):
                                 c.threads = [["bufnew 2"] + ["bufnext %s" % rng.choice(["all", "1", "0"])] * k]
                             c.owner = owner
                             cases.append(c)
+        cases += droppanic_stream(rng, tier, pid)
         return cases
     if pid == "C09":
         cases = defects + pulls_stream(rng, tier, pid, n_random=1000 if not big else 40000, prof=dict(skip=True))
@@ -393,6 +430,7 @@ def stream_for0(pid, tier, seed):
                     if op.split()[0] in ("foreach", "enumforeach") and rng.random() < 0.5:
                         t[j] = op + " panic=%d" % rng.randint(0, 4)
             cases.append(c)
+        cases += droppanic_stream(rng, tier, pid)
         return cases
     if pid == "C19":
         return multi_stream(rng, tier)
